@@ -46,8 +46,23 @@ int gc_gen(cs_t *cs, gcase_t *c, const runcfg_t *cfg, int prop) {
         const row_t *rr = row_by_name(cfg->row_filter);
         if (!rr) return 0;
         c->row = (int)(rr - g_rows);
-    } else
-        c->row = (int)cs_range(cs, 0, g_nrows - 1);
+    } else {
+        /* rows relevant to the property */
+        static int sub[12][128], nsub[12];
+        if (prop < 0 || prop >= 12) prop = 0;
+        if (!nsub[prop]) {
+            int i;
+            for (i = 0; i < g_nrows; i++) {
+                unsigned fl = g_rows[i].fl;
+                int in = 1;
+                if (prop == 3) in = (fl & F_DSTR) != 0;
+                else if (prop == 4) in = (fl & F_CLEAR) != 0;
+                else if (prop == 8) in = (fl & F_SLACK) != 0;
+                if (in) sub[prop][nsub[prop]++] = i;
+            }
+        }
+        c->row = sub[prop][cs_range(cs, 0, nsub[prop] - 1)];
+    }
     r = &g_rows[c->row];
     cap = cap_elems(r->w > r->du ? r->w : r->du);
     if (cap > r->dmax_max) cap = r->dmax_max;
@@ -101,6 +116,7 @@ int gc_gen(cs_t *cs, gcase_t *c, const runcfg_t *cfg, int prop) {
             if (!(r->fl & F_VAL255) && r->fam == FAM_QUERY && (r->fl & F_SRC)) c->val = cs_range(cs, 0, 1); /* fold_case */
         }
         c->alpha = (int)cs_range(cs, 0, 1);
+        if (prop == 4) c->alpha = 0;
         c->cseed = (uint32_t)cs_noise(cs, 0, 0xffffff);
         return 1;
     }
@@ -249,6 +265,7 @@ int gc_gen(cs_t *cs, gcase_t *c, const runcfg_t *cfg, int prop) {
     c->out_null = (r->out_kind != OUT_NONE || r->ret_kind == RK_PTR_ERRP) ? cs_range(cs, 0, 39) == 0 : 0;
     if (r->fl & F_NONULL) c->dest_null = c->src_null = c->out_null = 0;
     c->alpha = (int)cs_range(cs, 0, 3);
+    if (prop == 4) c->alpha = c->alpha & 2; /* alphabets 0 ('a','b') and 2 (blanks): disjoint from the prefill */
     c->cseed = (uint32_t)cs_noise(cs, 0, 0xffffff);
     return 1;
 }
@@ -318,7 +335,7 @@ void gc_run(const gcase_t *c, gexec_t *x) {
         else if (c->dcontent == DC_STR && i == c->dlen) v = 0;
         else if (c->dcontent == DC_STR && i < c->dlen) v = alpha_elem(c->alpha, r->w, &s);
         else if (c->dcontent == DC_UNTERM) v = alpha_elem(c->alpha, r->w, &s);
-        else { v = (uint32_t)(0x50 + (i % 41)); }        /* position coded garbage 'P'.. , non-zero */
+        else { v = (uint32_t)(0x81 + (i % 61)); }        /* position coded garbage 0x81..0xBD, non-zero, disjoint from alphabets 0/2 */
         put_elem(x->dest, r->w, i, v);
     }
     memcpy(x->dest_before, x->dest, c->dtrue);
